@@ -366,6 +366,13 @@ pub fn run(tier: Tier) -> i32 {
                 n.created_at = None;
                 n.path_and_query = None;
                 reqs.push(n);
+                // IPv4-mapped IPv6 client address (what a dual-stack proxy reports)
+                let mut m = reqs[0].clone();
+                m.remote_addr = Some("::ffff:10.0.0.1".parse().unwrap());
+                reqs.push(m);
+                let mut m2 = reqs[0].clone();
+                m2.remote_addr = Some("::ffff:8.8.8.8".parse().unwrap());
+                reqs.push(m2);
             }
             for req in reqs {
                 ctx.eval(1);
